@@ -1,0 +1,199 @@
+/*
+ *  Verification hooks (cargo feature `verif`, off by default).
+ *
+ *  Nothing in here is compiled into a regular build. The module gives an external
+ *  verification harness access to crate-private types and provides the hook
+ *  functions that are called (behind `#[cfg(feature = "verif")]`) from the
+ *  regular code: invariant checks after every processed request, crash points
+ *  inside the JSON flush procedure and perturbation points at suspension points.
+ */
+
+pub use crate::auth::{get_claims, pattern_matches};
+pub use crate::leader_follower::{ClientWriteCommand, LeaderSyncMessage, StateSync};
+pub use crate::persistence::{is_persistence_locked, unlock_persistence};
+pub use crate::store::{PersistedStore, StoreNode};
+pub use crate::worterbuch::{PStateAggregator, Worterbuch};
+
+use crate::{Config, server::CloneableWbApi};
+use std::{
+    collections::BTreeMap,
+    io,
+    sync::{
+        Mutex,
+        atomic::{AtomicU64, Ordering},
+    },
+    time::Duration,
+};
+
+// ---------------------------------------------------------------------------------------------
+// H1: thin wrappers around crate-private functions
+// ---------------------------------------------------------------------------------------------
+
+/// Synchronous JSON flush (the one used at shutdown and by followers).
+pub async fn json_flush(worterbuch: &mut Worterbuch, config: &Config) -> Result<(), String> {
+    crate::persistence::verif_json_synchronous(worterbuch, config)
+        .await
+        .map_err(|e| e.to_string())
+}
+
+/// Asynchronous JSON flush (the one used by the periodic persistence task).
+pub async fn json_flush_async(api: &CloneableWbApi, config: &Config) -> Result<(), String> {
+    crate::persistence::verif_json_asynchronous(api, config)
+        .await
+        .map_err(|e| e.to_string())
+}
+
+/// Load from the JSON persistence files (v3 -> v2 -> v1 fallback chain).
+pub async fn json_load(config: &Config) -> Result<Worterbuch, String> {
+    crate::persistence::verif_json_load(config)
+        .await
+        .map_err(|e| e.to_string())
+}
+
+// ---------------------------------------------------------------------------------------------
+// H2: invariant hook
+// ---------------------------------------------------------------------------------------------
+
+static INVARIANT_EVALUATIONS: AtomicU64 = AtomicU64::new(0);
+static INVARIANT_FAILURES: Mutex<Vec<String>> = Mutex::new(Vec::new());
+
+/// Called by the core task after every request it processed. Never panics, never changes state.
+pub fn after_request(worterbuch: &Worterbuch) {
+    INVARIANT_EVALUATIONS.fetch_add(1, Ordering::Relaxed);
+    let failures = worterbuch.verif_invariants();
+    if !failures.is_empty()
+        && let Ok(mut list) = INVARIANT_FAILURES.lock()
+        && list.len() < 1000
+    {
+        list.extend(failures);
+    }
+}
+
+pub fn invariant_evaluations() -> u64 {
+    INVARIANT_EVALUATIONS.load(Ordering::Relaxed)
+}
+
+pub fn take_invariant_failures() -> Vec<String> {
+    INVARIANT_FAILURES
+        .lock()
+        .map(|mut l| std::mem::take(&mut *l))
+        .unwrap_or_default()
+}
+
+// ---------------------------------------------------------------------------------------------
+// H3: crash points
+// ---------------------------------------------------------------------------------------------
+
+struct CrashState {
+    seq: u64,
+    armed: Option<u64>,
+    abort: bool,
+    hit: Vec<String>,
+    env_checked: bool,
+}
+
+static CRASH: Mutex<CrashState> = Mutex::new(CrashState {
+    seq: 0,
+    armed: None,
+    abort: false,
+    hit: Vec::new(),
+    env_checked: false,
+});
+
+/// Resets the crash point sequence counter and arms the `n`th crash point reached from now on
+/// (`None` = only record the points that are reached).
+pub fn arm_crash_point(n: Option<u64>) {
+    if let Ok(mut c) = CRASH.lock() {
+        c.seq = 0;
+        c.armed = n;
+        c.hit.clear();
+    }
+}
+
+/// Names of the crash points reached since the last call to `arm_crash_point`, in order.
+pub fn crash_points_hit() -> Vec<String> {
+    CRASH.lock().map(|c| c.hit.clone()).unwrap_or_default()
+}
+
+/// A point at which the process could die. If this point is the armed one, an I/O error is
+/// returned, which makes the flush procedure stop exactly here, leaving the directory as a kill
+/// would. If the environment variable `WB_VERIF_CRASH_AT=<n>` is set the process aborts for real
+/// at the `n`th crash point it reaches.
+pub fn crash_point(name: &str) -> io::Result<()> {
+    let Ok(mut c) = CRASH.lock() else {
+        return Ok(());
+    };
+    if !c.env_checked {
+        c.env_checked = true;
+        if let Some(n) = std::env::var("WB_VERIF_CRASH_AT")
+            .ok()
+            .and_then(|v| v.parse().ok())
+        {
+            c.armed = Some(n);
+            c.abort = true;
+        }
+    }
+    let seq = c.seq;
+    c.seq += 1;
+    if c.hit.len() < 10_000 {
+        c.hit.push(name.to_owned());
+    }
+    if c.armed == Some(seq) {
+        if c.abort {
+            eprintln!("verif: aborting at crash point #{seq} ({name})");
+            std::process::abort();
+        }
+        c.armed = None;
+        return Err(io::Error::other(format!(
+            "verif: simulated crash at point #{seq} ({name})"
+        )));
+    }
+    Ok(())
+}
+
+// ---------------------------------------------------------------------------------------------
+// H4: perturbation points
+// ---------------------------------------------------------------------------------------------
+
+static PERTURB_SEED: AtomicU64 = AtomicU64::new(0);
+static PERTURB_COUNTER: AtomicU64 = AtomicU64::new(0);
+static PERTURB_HITS: Mutex<BTreeMap<&'static str, u64>> = Mutex::new(BTreeMap::new());
+
+/// Enables (seed != 0) or disables (seed == 0) the perturbation points.
+pub fn set_perturbation(seed: u64) {
+    PERTURB_SEED.store(seed, Ordering::SeqCst);
+}
+
+pub fn perturbation_hits() -> BTreeMap<&'static str, u64> {
+    PERTURB_HITS.lock().map(|m| m.clone()).unwrap_or_default()
+}
+
+fn splitmix(mut x: u64) -> u64 {
+    x = x.wrapping_add(0x9E37_79B9_7F4A_7C15);
+    x = (x ^ (x >> 30)).wrapping_mul(0xBF58_476D_1CE4_E5B9);
+    x = (x ^ (x >> 27)).wrapping_mul(0x94D0_49BB_1331_11EB);
+    x ^ (x >> 31)
+}
+
+/// A point at which the task may legitimately be suspended. When enabled, pseudo-randomly does
+/// nothing, yields, or sleeps for up to 2 ms.
+pub async fn perturb(site: &'static str) {
+    let seed = PERTURB_SEED.load(Ordering::Relaxed);
+    if seed == 0 {
+        return;
+    }
+    let n = PERTURB_COUNTER.fetch_add(1, Ordering::Relaxed);
+    if let Ok(mut hits) = PERTURB_HITS.lock() {
+        *hits.entry(site).or_default() += 1;
+    }
+    let site_hash = site
+        .bytes()
+        .fold(0u64, |a, b| a.wrapping_mul(131).wrapping_add(u64::from(b)));
+    let r = splitmix(seed ^ splitmix(n) ^ site_hash);
+    match r % 8 {
+        0..=3 => {}
+        4 | 5 => tokio::task::yield_now().await,
+        6 => tokio::time::sleep(Duration::from_micros(r >> 8 & 0xff)).await,
+        _ => tokio::time::sleep(Duration::from_micros(r >> 8 & 0x7ff)).await,
+    }
+}
